@@ -12,6 +12,9 @@ import (
 
 const lineChunk = 64 * 1024
 
+// propC13: the run is for property C13 (-prop C13): findings that belong to C13 only are reported
+var propC13 bool
+
 type txInfo struct {
 	sum   [32]byte
 	proto uint8
@@ -32,6 +35,7 @@ type sessAn struct {
 	cut        bool // no longer used for cutting: kept false
 	closing    bool // the X line has been written: from here on only emissions are recorded (S lines) and only content equality is judged
 	xAt        int  // index in lines of the X line (-1: none yet)
+	lastW      [2][3]int // per side: index in lines, number of lines and number of bytes of the last W marker
 	closeSeen  [2]bool // side has emitted a close request / response of its own: its session object is gone
 	emits      [2]int             // number of S lines per side
 	wN         [2]int             // bytes written by side
@@ -116,8 +120,23 @@ func analyse(r *vh.Run, res *schedResult) schedSummary {
 				}
 				switch f[0] {
 				case "W":
+					st := len(a.lines)
 					hexLines(fmt.Sprintf("W %d", side), e.Data, &a.lines)
 					a.wN[side] += len(e.Data)
+					a.lastW[side] = [3]int{st, len(a.lines) - st, len(e.Data)}
+				case "U":
+					// the last Write of this side returned (0, timeout): nothing was written
+					lw := a.lastW[side]
+					if lw[1] > 0 && lw[0]+lw[1] <= len(a.lines) {
+						a.lines = append(a.lines[:lw[0]], a.lines[lw[0]+lw[1]:]...)
+						a.wN[side] -= lw[2]
+						for o := 0; o < 2; o++ {
+							if a.lastW[o][0] > lw[0] {
+								a.lastW[o][0] -= lw[1]
+							}
+						}
+						a.lastW[side] = [3]int{}
+					}
 				case "A":
 					hexLines(fmt.Sprintf("A %d", side), e.Data, &a.lines)
 					src := a.run.data[1-side]
@@ -173,7 +192,7 @@ func analyse(r *vh.Run, res *schedResult) schedSummary {
 			a.lines = append(a.lines, fmt.Sprintf("S %d %d %d %d %d %d %s", side, m.Proto, m.Seq, un, win, frag, vh.Hex(seg.Payload)))
 			a.nS++
 			// ---- oracle over the decoded emission
-			if m.Proto >= 6 && m.Proto <= 11 && !a.closing {
+			if m.Proto >= 6 && m.Proto <= 11 {
 				if win == 0 {
 					a.win0++
 				}
@@ -188,6 +207,14 @@ func analyse(r *vh.Run, res *schedResult) schedSummary {
 			stateless := a.closing && m.Proto == 4 && a.closeSeen[side]
 			if m.Proto == 4 || m.Proto == 5 {
 				a.closeSeen[side] = true
+			}
+			if stateless && propC13 {
+				ti := txInfo{sum: sha256.Sum256(seg.Payload), proto: m.Proto, frag: frag}
+				if old, ok := a.tx[side][m.Seq]; ok && old != ti {
+					a.failf("stateless-close-reply-reuses-sequence-number", "side %d emitted a closeSessionRequest with seq %d after its own close segment (datagram id %d); seq %d carried proto %d before. "+
+						"Code site: underlay_packet.go RunEventLoop, branch \"Session %%d is not registered\": for a data/ack segment of a session it no longer has the underlay replies with a closeSessionRequest whose seq is copied from the peer's unAckSeq. "+
+						"Harmless: the receiver handles close requests in inputClose without looking at seq, nothing is acknowledged or discarded because of it", side, m.Seq, e.ID, m.Seq, old.proto)
+				}
 			}
 			if sequenced(m.Proto) && !stateless {
 				ti := txInfo{sum: sha256.Sum256(seg.Payload), proto: m.Proto, frag: frag}
@@ -210,7 +237,7 @@ func analyse(r *vh.Run, res *schedResult) schedSummary {
 			}
 		case "udp-recv":
 			o, ok := owners[e.ID]
-			if !ok || o.s.closing {
+			if !ok {
 				continue
 			}
 			a := o.s
@@ -255,7 +282,7 @@ func analyse(r *vh.Run, res *schedResult) schedSummary {
 				a.lines = append(a.lines, "F")
 			}
 			sum.complete++
-		} else if s.spec.Shape == "close-race" {
+		} else if s.spec.Shape == "close-race" || s.spec.Shape == "close-loss" {
 			// closed on purpose while a Write was in progress: only the safety checks apply
 			sum.complete++
 		} else if counts && len(errs) == 0 {
@@ -283,6 +310,9 @@ func analyse(r *vh.Run, res *schedResult) schedSummary {
 		}
 		if a.srvFirst {
 			r.Count("sessions-server-data-before-open-response")
+		}
+		if t := s.wtimeouts.Load(); t > 0 {
+			r.Rep.Distribution["write-deadline-timeouts-retried"] += int(t)
 		}
 		if t := s.timeouts.Load(); t > 0 {
 			r.Rep.Distribution["read-timeouts-retried"] += int(t)
